@@ -131,11 +131,12 @@ SemStep(e) ==
     [] e.op = "sem.univ" -> SemSetUniverse(e.u)
                             /\ Note(<< <<"H.univ", \A i \in 1..Len(e.u) : e.u[i] = <<>> \/ IsPre(e.u[i])>> >>)
     [] e.op = "sem.parse" -> SemParse(e.in, e.fn, e.rule) /\ Note(SParseDemands(e, sRet'))
+    [] e.op = "sem.utext" -> SemUnmarshalText(e.in) /\ Note(UTextDemands(e, sRet', sRecv', VerOf(e.recv)))
     [] e.op = "sem.valid" -> UNCHANGED svars /\ Note(SValidDemands(e))
     [] e.op = "sem.row" -> UNCHANGED svars /\ Note(RowDemands(e))
     [] e.op = "sem.cmp" -> SemCompare(VerOf(e.a), VerOf(e.b)) /\ Note(CmpDemands2(e))
     [] e.op = "sem.next" -> UNCHANGED svars /\ Note(NextDemands(e))
     [] e.op = "sem.htext" -> UNCHANGED svars /\ Note(HTextDemands(e))
 
-IsSemOp(e) == e.op \in {"sem.set", "sem.univ", "sem.parse", "sem.valid", "sem.row", "sem.cmp", "sem.next", "sem.htext"}
+IsSemOp(e) == e.op \in {"sem.utext", "sem.set", "sem.univ", "sem.parse", "sem.valid", "sem.row", "sem.cmp", "sem.next", "sem.htext"}
 =============================================================================
